@@ -284,6 +284,82 @@ SymEqClauses(c, o) ==
            Cl("hash", "hash", St(FALSE, Bit(o.he) /\ (same => o.he = 1) /\ (o.eq = 1 => o.he = 1))),
            Cl("bool", "bool", St(FALSE, o.ba = B01(TWords(ta) # {}) /\ o.bb = B01(TWords(tb) # {}))) >>
 
+(******************************** hist *************************************)
+(* Histories on one object.  The recorded stored data of the two live       *)
+(* objects a, b after every step must still denote the multivectors they    *)
+(* were built as and must not have gained (or lost) explicitly stored zero  *)
+(* coefficients -- these are what ==, hash, bool, get_pure_grade and inv()  *)
+(* of the class look at; every step's result is judged by the M-layer       *)
+(* (operands keep their value, so each step is a function of A, B, q); and  *)
+(* after the history the SAME objects are judged against never used twins:  *)
+(* coefficient-wise equal => ==, not !=, same hash; bool = "some            *)
+(* coefficient is non-zero"; get_pure_grade = the single grade of the       *)
+(* meaning (None = -1 when mixed); the inverse law as in the unary kind.    *)
+ZeroWords(r) == { r.mv[i][1] : i \in { j \in 1..Len(r.mv) : r.mv[j][2][1] = 0 /\ r.mv[j][2][2] # 0 } }
+Unchanged(r, r0, m, n) ==
+    IF r.t # "mv" \/ r0.t # "mv" THEN "FAIL"
+    ELSE IF RUnrep(r) \/ RUnrep(r0) \/ MVBad(m) THEN "SKIP"
+    ELSE IF WellFormed(r, n) /\ RMV(r) = m /\ ZeroWords(r) = ZeroWords(r0) /\ Len(r.mv) = Len(r0.mv)
+         THEN "OK" ELSE "FAIL"
+HistClauses(c, o) ==
+    LET g == c.g
+        n == c.n
+        A == MVOfTerms(c.a, g)
+        B == MVOfTerms(c.b, g)
+        QS == MVScalar(QOf(c.q))
+        bad == MVBad(A) \/ MVBad(B)
+        StepCl(i) ==
+            LET s == c.steps[i]
+                r == o.st[i].r
+                IsM(m) == MVIs(r, m, n)
+                v == CASE s = "add"   -> IsM(MVAdd(A, B))
+                       [] s = "radd"  -> IsM(MVAdd(B, A))
+                       [] s = "sub"   -> IsM(MVSub(A, B))
+                       [] s = "rsub"  -> IsM(MVSub(B, A))
+                       [] s \in {"sadd", "adds"} -> IsM(MVAdd(QS, A))
+                       [] s = "ssub"  -> IsM(MVSub(QS, A))
+                       [] s = "scl"   -> ScIs(r, ScalarPart(MVProd("scl", A, B, g)))
+                       [] s \in Ops \ {"scl"} -> IsM(MVProd(s, A, B, g))
+                       [] s = "x"     -> IsM(MVScale(<< 1, 2 >>, MVSub(MVProd("geo", A, B, g), MVProd("geo", B, A, g))))
+                       [] s = "neg"   -> IsM(MVNeg(A))
+                       [] s = "rev"   -> IsM(MVRev(A))
+                       [] s = "invol" -> IsM(MVInvol(A))
+                       [] s = "dual"  -> IsM(MVDual(A, n, g))
+                       [] s = "eq"    -> IF bad THEN "SKIP" ELSE ScIs(r, QInt(B01(A = B)))
+                       [] s = "bool"  -> IF bad THEN "SKIP" ELSE ScIs(r, QInt(B01(A # MVZero)))
+                       [] s = "hash"  -> St(FALSE, r.t = "sc")
+            IN  << Cl("history-step", s, v),
+                   Cl("operand-unchanged", s,
+                      Both(Unchanged(o.st[i].a, o.s0[1], A, n), Unchanged(o.st[i].b, o.s0[2], B, n))) >>
+        RECURSIVE Steps(_)
+        Steps(i) == IF i > Len(c.steps) THEN << >> ELSE StepCl(i) \o Steps(i + 1)
+        After(x, M, which, r0) ==
+            LET NS  == MVNormSq(M, g)
+                app == (IsMonomial(M) \/ IsVector(M)) /\ ~MVBad(M) /\ ~IsBad(NS) /\ ~QIsZero(NS)
+                pg  == IF Cardinality(Grades(M)) = 1 THEN CHOOSE t \in Grades(M) : TRUE ELSE -1
+            IN  << Cl(which, "data", Unchanged(x.d, r0, M, n)),
+                   Cl(which, "==", St(MVBad(M), x.eq = 1 /\ x.eqr = 1)),
+                   Cl(which, "!=", St(MVBad(M), x.ne = 0 /\ x.ner = 0)),
+                   Cl(which, "hash", St(MVBad(M), x.he = 1)),
+                   Cl(which, "bool", St(MVBad(M), x.bo = B01(M # MVZero))),
+                   Cl(which, "get_pure_grade",
+                      IF M = MVZero THEN "NA" ELSE St(MVBad(M), x.pg = pg)),
+                   Cl(which, "inv",
+                      IF x.inv.t = "mv"
+                      THEN IF RUnrep(x.inv) \/ MVBad(M) THEN "SKIP"
+                           ELSE LET X == RMV(x.inv)
+                                    p1 == MVProd("geo", X, M, g)
+                                    p2 == MVProd("geo", M, X, g)
+                                IN  St(MVBad(p1) \/ MVBad(p2), p1 = MVOne /\ p2 = MVOne)
+                      ELSE IF app THEN "FAIL" ELSE "NA"),
+                   Cl(which, "inv*a",
+                      IF x.inv.t = "mv" \/ app
+                      THEN Both(MVIs(x.inv_m, MVOne, n), MVIs(x.m_inv, MVOne, n))
+                      ELSE "NA") >>
+    IN  << Cl("ctor-value", "a", Both(MVIs(o.s0[1], A, n), St(FALSE, ZeroWords(o.s0[1]) = {}))),
+           Cl("ctor-value", "b", Both(MVIs(o.s0[2], B, n), St(FALSE, ZeroWords(o.s0[2]) = {}))) >>
+        \o Steps(1) \o After(o.oa, A, "used-a", o.s0[1]) \o After(o.ob, B, "used-b", o.s0[2])
+
 (******************************** prog *************************************)
 \* a straight-line program over registers: value of every register by the M-layer
 RECURSIVE ProgVals(_, _, _, _)
@@ -323,6 +399,7 @@ Clauses(rec) ==
       [] rec.c.k = "prog"   -> ProgClauses(rec.c, rec.o)
       [] rec.c.k = "sym"    -> SymClauses(rec.c, rec.o)
       [] rec.c.k = "symeq"  -> SymEqClauses(rec.c, rec.o)
+      [] rec.c.k = "hist"   -> HistClauses(rec.c, rec.o)
 
 Report ==
     Idx <= Len(Recs) =>
